@@ -39,6 +39,7 @@ ASSUMPTIONS = [phys.POSITIVITY_TEXT, "transient=False", "tables are non-empty on
 TECHNIQUE = "per-class value numbering of component hooks (MRO-resolved), guarded normal-form comparison, slot filling from the repository"
 EXPLANATION += (' ' + "(R3.7) every row window A[W[k][0]:W[k][1]] whose array and window table have a known coordinate system (full pit and 'from_to', active pit and 'from_to_active_<mode>'; the parameters of the adaption / rerun hooks take the coordinate system of the arguments at the call sites in pipeflow.py, which must agree) reads its bounds from the window table of that array: with the other table the set-point lands on the rows of a different element as soon as an element ahead in the pit is not calculated.")
 EXPLANATION += (' ' + '(R3.8, shared with C04 R4.5) what counts as a connected sink / source / controller is decided by the connectivity search; its inputs are checked, among them that DIRECTED (one-way in the search) is written by the pressure controller only.')
+EXPLANATION += (' ' + '(R3.9) stores of the pit-filling hooks that read a user column and are guarded by the transient options are confined to the structural columns (ONCE_ONLY_COLUMNS: labels, topology, geometry, confirmed by reading Junction, Pipe and Valve); a prescribed value is written in every step of a transient run.')
 
 QUARTET = (("JAC_DERIV_DP", 0), ("JAC_DERIV_DP1", 0), ("JAC_DERIV_DM", 1), ("LOAD_VEC_BRANCHES", 0))
 
